@@ -298,6 +298,7 @@ class Executor:
         self.snap0 = snapshot_trees(self.W)
         self.snap0_digests = {k: cdigest(v) for k, v in self.snap0.items()}
         self.interp0 = interpreter_state()
+        self.kept = {}      # op id -> (object returned by that call and still held by the caller, its canonical form at that time)
         self.lib0 = library_state()
         self.last = None
 
@@ -345,6 +346,9 @@ class Executor:
         tree = canon(res, numeric=True)
         self.last = res
         out = {"kind": "ok", "digest": cdigest(tree), "tree": tree}
+        if op.get("keep") and op.get("id") is not None:
+            self.kept[str(op["id"])] = (res, canon(res))
+            self._just_kept = str(op["id"])
         extra = self._derived(fn, op, res)
         if extra:
             out["derived"] = extra
@@ -362,9 +366,21 @@ class Executor:
                 changed.append({"item": k, "path": k, "before": "present", "after": "absent"})
         cur_i = interpreter_state()
         drift = sorted(k for k in cur_i if cur_i[k] != self.interp0.get(k))
+        kept_changed = []
+        just = getattr(self, "_just_kept", None)
+        self._just_kept = None
+        for kid in sorted(self.kept):
+            if kid == just:
+                continue
+            obj, before = self.kept[kid]
+            now_ = canon(obj)
+            if cdigest(now_) != cdigest(before):
+                dd = first_diff(before, now_, "result_of_op_%s" % kid)
+                kept_changed.append({"item": "result of op %s" % kid, "path": dd[0] if dd else kid, "before": dd[1] if dd else None, "after": dd[2] if dd else None})
         lib = library_state()
         libdrift = sorted(k for k in set(lib) | set(self.lib0) if lib.get(k) != self.lib0.get(k))
-        return {"snapshot_changed": changed[:5], "interpreter_state_changed": drift, "library_state_changed": libdrift[:8]}
+        return {"snapshot_changed": changed[:5], "interpreter_state_changed": drift, "library_state_changed": libdrift[:8],
+                "kept_changed": kept_changed[:5]}
 
     def query(self, msg):
         return {"kind": "ok"}
@@ -492,6 +508,15 @@ class Executor:
             if op.get("grid"):
                 out["values"] = [[float(f(x, t)), float(g(x, t))] for (x, t) in op["grid"]]
             return out
+        if fn == "copy_object":
+            import copy as _copy
+            import pickle as _pickle
+            how = op["how"]
+            if how == "deepcopy":
+                return _copy.deepcopy(a["obj"])
+            if how == "copy":
+                return _copy.copy(a["obj"])
+            return _pickle.loads(_pickle.dumps(a["obj"]))
         if fn == "new_mixture":
             n_ = a["nrtl"]
             mx = Mixture(name=a["name"], first_component=a["first_component"], second_component=a["second_component"],
